@@ -203,6 +203,8 @@ func c08Contexts() []c08Ctx {
 		{"call-depth-2", one(func(e *rt.Node) *rt.Node { return rt.Call("p", rt.Call("p", I(1), e)) })},
 		{"call-depth-2-named", one(func(e *rt.Node) *rt.Node { return rt.Call("p", rt.Named("k", rt.Call("p", rt.Named("j", e)))) })},
 		{"v2-named-arg", one(func(e *rt.Node) *rt.Node { return rt.Call("id", rt.Named("x", e)) })},
+		{"v2-raw-arg", one(func(e *rt.Node) *rt.Node { return rt.Call("raw", I(1), e) })},
+		{"v2-raw-arg-nested", one(func(e *rt.Node) *rt.Node { return rt.Call("raw", rt.List(rt.Map(S("k"), e)), rt.Named("k", I(1))) })},
 		{"v2-named-arg-depth-2", one(func(e *rt.Node) *rt.Node { return rt.Call("p", rt.Call("id", rt.Named("x", rt.Call("id", rt.Named("x", e))))) })},
 		{"builtin-arg", one(func(e *rt.Node) *rt.Node { return rt.Call("add_key", Id("k"), e) })},
 		{"len-arg", one(func(e *rt.Node) *rt.Node { return rt.Assign("=", Id("x"), rt.Call("len", e)) })},
